@@ -105,9 +105,29 @@ pub struct WorkerCtx<C> {
     cur_index: u64,
     cur_sub: u32,
     digest_every: u64,
+    /// locate mode: every case is written here before it is evaluated
+    locate: Option<PathBuf>,
+    /// heartbeat slot in the supervisor's file
+    slot: Option<(std::fs::File, u64)>,
 }
 
 const SIG_CAP: usize = 3_000_000;
+
+const SLOT_WIDTH: u64 = 32;
+
+impl<C: Clone + Serialize> WorkerCtx<C> {
+    /// Must be called before a case is evaluated. In locate mode (after a crash or stall of the
+    /// batch) the case is persisted first, so that the supervisor knows what was running.
+    pub fn about_to_eval(&mut self, case: &C) {
+        if let Some(path) = &self.locate {
+            let tmp = path.with_extension("tmp");
+            let v = json!({ "index": self.cur_index, "sub": self.cur_sub, "case": case });
+            if std::fs::write(&tmp, serde_json::to_vec(&v).unwrap_or_default()).is_ok() {
+                let _ = std::fs::rename(&tmp, path);
+            }
+        }
+    }
+}
 
 impl<C: Clone> WorkerCtx<C> {
     fn new(digest_every: u64) -> Self {
@@ -127,6 +147,26 @@ impl<C: Clone> WorkerCtx<C> {
             cur_index: 0,
             cur_sub: 0,
             digest_every,
+            locate: None,
+            slot: None,
+        }
+    }
+
+    fn with_slot(mut self, worker: u64) -> Self {
+        if let Some(path) = std::env::var_os("MPDSIM_SLOTS") {
+            if let Ok(f) = std::fs::OpenOptions::new().write(true).create(true).open(path) {
+                self.slot = Some((f, worker * SLOT_WIDTH));
+            }
+        }
+        self
+    }
+
+    /// Tell the supervisor which run index this worker is about to process.
+    fn heartbeat(&self, text: &str) {
+        use std::os::unix::fs::FileExt;
+        if let Some((f, off)) = &self.slot {
+            let line = format!("{:<width$}\n", text, width = SLOT_WIDTH as usize - 1);
+            let _ = f.write_at(line.as_bytes(), *off);
         }
     }
 
@@ -394,10 +434,12 @@ pub fn run_check<K: Check>(check: &K, opts: &Options) -> i32 {
         budget.as_secs()
     );
 
+    let worker_ids = AtomicU64::new(0);
     std::thread::scope(|s| {
         for _ in 0..opts.workers {
             s.spawn(|| {
-                let mut ctx: WorkerCtx<K::Case> = WorkerCtx::new(digest_every);
+                let mut ctx: WorkerCtx<K::Case> =
+                    WorkerCtx::new(digest_every).with_slot(worker_ids.fetch_add(1, Ordering::SeqCst));
                 loop {
                     let i = next.fetch_add(1, Ordering::SeqCst);
                     if i >= max_index || i > stop_after.load(Ordering::SeqCst) {
@@ -409,12 +451,15 @@ pub fn run_check<K: Check>(check: &K, opts: &Options) -> i32 {
                     }
                     ctx.cur_index = i;
                     ctx.cur_sub = 0;
+                    ctx.heartbeat(&format!("run {}", i));
                     let had = ctx.violations.len();
                     check.run_index(opts.seed, i, opts.tier, &mut ctx, &known);
                     if ctx.violations.len() > had {
                         stop_after.fetch_min(i, Ordering::SeqCst);
                     }
                 }
+                ctx.heartbeat("done");
+                ctx.slot = None;
                 results.lock().unwrap().push(ctx);
             });
         }
@@ -441,7 +486,8 @@ pub fn run_check<K: Check>(check: &K, opts: &Options) -> i32 {
     std::thread::scope(|s| {
         for _ in 0..opts.workers.max(2) - 1 {
             s.spawn(|| {
-                let mut ctx: WorkerCtx<K::Case> = WorkerCtx::new(1);
+                let mut ctx: WorkerCtx<K::Case> =
+                    WorkerCtx::new(1).with_slot(worker_ids.fetch_add(1, Ordering::SeqCst) % 64);
                 loop {
                     let j = det_next.fetch_add(1, Ordering::SeqCst) as usize;
                     if j >= sample_indexes.len() {
@@ -451,8 +497,10 @@ pub fn run_check<K: Check>(check: &K, opts: &Options) -> i32 {
                     let i = sample_indexes[sample_indexes.len() - 1 - j];
                     ctx.cur_index = i;
                     ctx.cur_sub = 0;
+                    ctx.heartbeat(&format!("run {}", i));
                     check.run_index(opts.seed, i, opts.tier, &mut ctx, &known);
                 }
+                ctx.heartbeat("done");
                 det_results.lock().unwrap().extend(ctx.digests);
             });
         }
@@ -531,24 +579,42 @@ pub fn run_check<K: Check>(check: &K, opts: &Options) -> i32 {
     let mut violation_count = 0;
     if let Some((index, case, v)) = violations.into_iter().next() {
         violation_count = 1;
-        let (case, v, steps) = shrink_case(check, case, v, &known);
-        let ev = check.eval(&case);
-        let rf = ReplayFile {
-            property: check.id().to_string(),
-            seed: opts.seed,
-            index,
-            violation: v.clone(),
-            digest: ev.digest,
-            shrink_steps: steps,
-            trace: check.trace(&case),
-            case: serde_json::to_value(&case).unwrap(),
-        };
         let dir = root.join("replays");
         let _ = std::fs::create_dir_all(&dir);
         let path = dir.join(format!("{}-{}-{}.json", check.id(), opts.seed, index));
-        if let Err(e) = std::fs::write(&path, serde_json::to_string_pretty(&rf).unwrap()) {
-            eprintln!("HARNESS-ERROR cannot write replay file: {}", e);
+        let write_replay = |case: &K::Case, v: &Violation, steps: u64| -> bool {
+            let ev = check.eval(case);
+            let rf = ReplayFile {
+                property: check.id().to_string(),
+                seed: opts.seed,
+                index,
+                violation: v.clone(),
+                digest: ev.digest,
+                shrink_steps: steps,
+                trace: check.trace(case),
+                case: serde_json::to_value(case).unwrap(),
+            };
+            std::fs::write(&path, serde_json::to_string_pretty(&rf).unwrap()).is_ok()
+        };
+        // persist the violation as found, and tell the supervisor where it is, before minimising:
+        // a simplified variant may well kill the process
+        if !write_replay(&case, &v, 0) {
+            eprintln!("HARNESS-ERROR cannot write replay file");
             return 2;
+        }
+        let slots_env = std::env::var_os("MPDSIM_SLOTS").map(PathBuf::from);
+        if let Some(sl) = &slots_env {
+            let _ = std::fs::write(sl.with_extension("found"), path.display().to_string());
+        }
+        let hb: WorkerCtx<K::Case> = WorkerCtx::new(0).with_slot(80);
+        let (case, v, steps) = shrink_case(check, case, v, &known, &hb);
+        hb.heartbeat("done");
+        if !write_replay(&case, &v, steps) {
+            eprintln!("HARNESS-ERROR cannot write replay file");
+            return 2;
+        }
+        if let Some(sl) = &slots_env {
+            let _ = std::fs::remove_file(sl.with_extension("found"));
         }
         // the replay must reproduce in a fresh process
         let exe = std::env::current_exe().unwrap();
@@ -647,11 +713,283 @@ pub fn run_check<K: Check>(check: &K, opts: &Options) -> i32 {
     exit
 }
 
+/// `mpdsim locate`: re-run one run index, persisting every case before it is evaluated.
+pub fn locate<K: Check>(check: &K, seed: u64, index: u64, tier: Tier, case_file: &Path) -> i32 {
+    let known = KnownFindings::default();
+    let mut ctx: WorkerCtx<K::Case> = WorkerCtx::new(0);
+    ctx.locate = Some(case_file.to_path_buf());
+    ctx.cur_index = index;
+    ctx.cur_sub = 0;
+    check.run_index(seed, index, tier, &mut ctx, &known);
+    0
+}
+
+fn stall_limit() -> Duration {
+    std::env::var("VERIF_STALL_S")
+        .ok()
+        .and_then(|s| s.parse::<f64>().ok())
+        .map(Duration::from_secs_f64)
+        .unwrap_or(Duration::from_secs(120))
+}
+
+enum ChildEnd {
+    Exit(i32),
+    /// killed by a signal / aborted / panicked outside a run (exit code other than 0, 1, 2)
+    Crashed(String),
+    /// the supervisor killed it: this worker's run index made no progress for too long
+    Stalled(Vec<u64>),
+}
+
+fn read_slots(path: &Path) -> Vec<String> {
+    let Ok(text) = std::fs::read_to_string(path) else {
+        return Vec::new();
+    };
+    text.lines().map(|l| l.trim().to_string()).collect()
+}
+
+fn slot_index(text: &str) -> Option<u64> {
+    text.strip_prefix("run ").and_then(|n| n.trim().parse().ok())
+}
+
+fn wait_supervised(child: &mut std::process::Child, slots: Option<&Path>, limit: Duration) -> ChildEnd {
+    use std::os::unix::process::ExitStatusExt;
+    let mut last: Vec<(String, Instant)> = Vec::new();
+    let started = Instant::now();
+    loop {
+        match child.try_wait() {
+            Ok(Some(st)) => {
+                return match st.code() {
+                    Some(c @ (0 | 1 | 2)) => ChildEnd::Exit(c),
+                    Some(c) => ChildEnd::Crashed(format!("exit code {}", c)),
+                    None => ChildEnd::Crashed(format!("signal {}", st.signal().unwrap_or(0))),
+                };
+            }
+            Ok(None) => {}
+            Err(e) => return ChildEnd::Crashed(format!("wait failed: {}", e)),
+        }
+        std::thread::sleep(Duration::from_millis(100));
+        match slots {
+            Some(p) => {
+                let now = Instant::now();
+                let cur = read_slots(p);
+                if last.len() < cur.len() {
+                    last.resize(cur.len(), (String::new(), now));
+                }
+                let mut stalled = Vec::new();
+                let mut any_stalled = false;
+                for (i, c) in cur.iter().enumerate() {
+                    if last[i].0 != *c {
+                        last[i] = (c.clone(), now);
+                    } else if !c.is_empty() && c != "done" && now.duration_since(last[i].1) > limit {
+                        any_stalled = true;
+                        if let Some(idx) = slot_index(c) {
+                            stalled.push(idx);
+                        }
+                    }
+                }
+                if any_stalled {
+                    let _ = child.kill();
+                    let _ = child.wait();
+                    return ChildEnd::Stalled(stalled);
+                }
+            }
+            None => {
+                if started.elapsed() > limit {
+                    let _ = child.kill();
+                    let _ = child.wait();
+                    return ChildEnd::Stalled(Vec::new());
+                }
+            }
+        }
+    }
+}
+
+/// Run a check under supervision: the batch runs in a child process; if that process is killed
+/// (allocation failure, stack overflow, abort) or a run index stops making progress (a loop in
+/// the code under test that never touches the transport), the supervisor finds the case that was
+/// running, writes it as a replay file and reports the violation instead of dying with it.
+pub fn supervise(id: &str, tier: Tier, opts: &Options) -> i32 {
+    let root = verif_root();
+    let run_dir = root.join("replays");
+    let _ = std::fs::create_dir_all(&run_dir);
+    let pid = std::process::id();
+    let slots = run_dir.join(format!(".{}-{}.slots", id, pid));
+    let _ = std::fs::remove_file(&slots);
+    let exe = std::env::current_exe().expect("current exe");
+    let mut child = match std::process::Command::new(&exe)
+        .args(["check", id, "--tier", tier.as_str()])
+        .env("MPDSIM_INNER", "1")
+        .env("MPDSIM_SLOTS", &slots)
+        .env("VERIF_SEED", opts.seed.to_string())
+        .spawn()
+    {
+        Ok(c) => c,
+        Err(e) => {
+            eprintln!("HARNESS-ERROR cannot start the batch process: {}", e);
+            return 2;
+        }
+    };
+    let end = wait_supervised(&mut child, Some(&slots), stall_limit());
+    let active: Vec<u64> = read_slots(&slots).iter().filter_map(|t| slot_index(t)).collect();
+    let _ = std::fs::remove_file(&slots);
+    // a violation that had already been found (and was being minimised) when the process died
+    let marker = slots.with_extension("found");
+    let found: Option<String> = std::fs::read_to_string(&marker).ok();
+    let _ = std::fs::remove_file(&marker);
+    let (what, mut candidates) = match end {
+        ChildEnd::Exit(c) => return c,
+        ChildEnd::Crashed(w) => (format!("the process running the batch died ({})", w), active),
+        ChildEnd::Stalled(idx) => (
+            format!("a run made no progress for {} s", stall_limit().as_secs()),
+            idx,
+        ),
+    };
+    if let Some(path) = found {
+        let path = path.trim().to_string();
+        if let Ok(text) = std::fs::read_to_string(&path) {
+            if let Ok(rf) = serde_json::from_str::<ReplayFile>(&text) {
+                println!(
+                    "supervisor: {} while a violation was being minimised; reporting the violation as it stood",
+                    what
+                );
+                if supervise_replay(&path, true, false, &rf) == 1 {
+                    println!("violation clause={} detail={}", rf.violation.clause, rf.violation.detail);
+                    println!("VIOLATION property={} replay={}", id, path);
+                    return 1;
+                }
+            }
+        }
+    }
+    candidates.sort_unstable();
+    candidates.dedup();
+    println!("supervisor: {}; locating the case among run indexes {:?}", what, candidates);
+    for index in candidates {
+        let case_file = run_dir.join(format!(".{}-{}-{}.located", id, pid, index));
+        let _ = std::fs::remove_file(&case_file);
+        let mut lc = match std::process::Command::new(&exe)
+            .args(["locate", id, tier.as_str(), &index.to_string()])
+            .arg(&case_file)
+            .env("VERIF_SEED", opts.seed.to_string())
+            .spawn()
+        {
+            Ok(c) => c,
+            Err(_) => continue,
+        };
+        let limit = stall_limit().min(Duration::from_secs(60));
+        let clause = match wait_supervised(&mut lc, None, limit) {
+            ChildEnd::Exit(_) => {
+                let _ = std::fs::remove_file(&case_file);
+                continue;
+            }
+            ChildEnd::Crashed(w) => ("process_abort", format!("the process is killed while this case runs ({}): allocation failure, stack overflow or abort in the code under test", w)),
+            ChildEnd::Stalled(_) => ("hang", format!("this case does not finish within {} s of wall-clock time without touching the transport", limit.as_secs())),
+        };
+        let located: Option<Value> = std::fs::read(&case_file)
+            .ok()
+            .and_then(|b| serde_json::from_slice(&b).ok());
+        let _ = std::fs::remove_file(&case_file);
+        let Some(located) = located else {
+            continue;
+        };
+        let rf = ReplayFile {
+            property: id.to_string(),
+            seed: opts.seed,
+            index,
+            violation: Violation::new(id, clause.0, clause.1.clone()).tag(clause.0),
+            digest: 0,
+            shrink_steps: 0,
+            trace: vec![format!("located by re-running run index {} in a child process", index)],
+            case: located["case"].clone(),
+        };
+        let path = run_dir.join(format!("{}-{}-{}.json", id, opts.seed, index));
+        if std::fs::write(&path, serde_json::to_string_pretty(&rf).unwrap()).is_err() {
+            eprintln!("HARNESS-ERROR cannot write replay file");
+            return 2;
+        }
+        println!("violation clause={} detail={}", clause.0, clause.1);
+        println!("VIOLATION property={} replay={}", id, path.display());
+        return 1;
+    }
+    eprintln!("HARNESS-ERROR {} and no single case reproduces it", what);
+    2
+}
+
+/// `mpdsim replay`: supervised, so that aborting / hanging cases can be replayed too.
+pub fn supervise_replay(file: &str, quiet: bool, strict: bool, rf: &ReplayFile) -> i32 {
+    let exe = std::env::current_exe().expect("current exe");
+    let mut cmd = std::process::Command::new(&exe);
+    cmd.args(["replay", file]).env("MPDSIM_INNER", "1");
+    if quiet {
+        cmd.arg("--quiet");
+    }
+    if strict {
+        cmd.arg("--strict");
+    }
+    let Ok(mut child) = cmd.spawn() else {
+        eprintln!("HARNESS-ERROR cannot start the replay process");
+        return 2;
+    };
+    let limit = stall_limit().min(Duration::from_secs(60));
+    match wait_supervised(&mut child, None, limit) {
+        ChildEnd::Exit(c) => c,
+        ChildEnd::Crashed(w) => {
+            if !quiet {
+                println!("reproduced: the process was killed while replaying ({})", w);
+                println!("VIOLATION property={} replay=<this file>", rf.property);
+            }
+            if rf.violation.clause == "process_abort" || !strict {
+                1
+            } else {
+                2
+            }
+        }
+        ChildEnd::Stalled(_) => {
+            if !quiet {
+                println!("reproduced: the case does not finish within {} s", limit.as_secs());
+                println!("VIOLATION property={} replay=<this file>", rf.property);
+            }
+            if rf.violation.clause == "hang" || !strict {
+                1
+            } else {
+                2
+            }
+        }
+    }
+}
+
+/// Digest list of the first `n` run indexes (every evaluation), for the determinism self-test.
+pub fn digests<K: Check>(check: &K, seed: u64, n: u64, workers: usize, tier: Tier) -> Vec<(u64, u32, u64)> {
+    let known = KnownFindings::default();
+    let next = AtomicU64::new(0);
+    let all: Mutex<Vec<(u64, u32, u64)>> = Mutex::new(Vec::new());
+    std::thread::scope(|s| {
+        for _ in 0..workers.max(1) {
+            s.spawn(|| {
+                let mut ctx: WorkerCtx<K::Case> = WorkerCtx::new(1);
+                loop {
+                    let i = next.fetch_add(1, Ordering::SeqCst);
+                    if i >= n {
+                        break;
+                    }
+                    ctx.cur_index = i;
+                    ctx.cur_sub = 0;
+                    check.run_index(seed, i, tier, &mut ctx, &known);
+                }
+                all.lock().unwrap().extend(ctx.digests);
+            });
+        }
+    });
+    let mut v = all.into_inner().unwrap();
+    v.sort_unstable();
+    v
+}
+
 fn shrink_case<K: Check>(
     check: &K,
     mut case: K::Case,
     mut v: Violation,
     known: &KnownFindings,
+    hb: &WorkerCtx<K::Case>,
 ) -> (K::Case, Violation, u64) {
     let started = Instant::now();
     let mut steps = 0u64;
@@ -671,6 +1009,7 @@ fn shrink_case<K: Check>(
             }
             let idx = (pos + k) % n;
             tries += 1;
+            hb.heartbeat(&format!("shrink {}", tries));
             let ev = check.eval(&cands[idx]);
             if let Some(nv) = ev.violation {
                 if nv.property == v.property && nv.clause == v.clause && known.matching(&nv).is_none()
